@@ -135,8 +135,22 @@ func elemTypes() []ty {
 	return r
 }
 
+// jsonAny is the interface-typed element of @fp.Json structs: `any` holding only values that plain
+// encoding/json decodes back identically into an `any` (numbers are float64 there, arrays []any, objects
+// map[string]any). nil encodes to null: the Option / pointer productions keep excluding it as a payload.
+func jsonAny() ty {
+	return ty{expr: "any", kind: "json-any", jsonSafe: true, lit: func(t *rapid.T) string {
+		return rapid.SampledFrom([]string{"float64(1.5)", "float64(7)", `"s"`, "true", `[]any{float64(1), "x"}`, `map[string]any{"k": float64(2), "n": "v"}`, "nil"}).Draw(t, "jsonany")
+	}}
+}
+
 // composite builds pointer/slice/array/map/option/seq/tuple/try types over an element type.
 func composite(t *rapid.T, depth int, jsonOnly bool, params []tparam) ty {
+	return compositeX(t, depth, jsonOnly, jsonOnly, params)
+}
+
+// compositeX: jsonOnly restricts to JSON-faithful types; withAny (only for fields of @fp.Json structs) adds jsonAny.
+func compositeX(t *rapid.T, depth int, jsonOnly, withAny bool, params []tparam) ty {
 	var pool []string
 	if depth > 0 {
 		pool = []string{"elem", "elem", "ptr", "slice", "array", "map", "option", "seq", "tuple2"}
@@ -167,6 +181,9 @@ func composite(t *rapid.T, depth int, jsonOnly bool, params []tparam) ty {
 			}
 			es = f
 		}
+		if withAny {
+			es = append(es, jsonAny(), jsonAny())
+		}
 		return rapid.SampledFrom(es).Draw(t, "elem")
 	case "iface":
 		return rapid.SampledFrom(ifaceTypes()).Draw(t, "iface")
@@ -176,7 +193,7 @@ func composite(t *rapid.T, depth int, jsonOnly bool, params []tparam) ty {
 		p := rapid.SampledFrom(params).Draw(t, "param")
 		return ty{expr: p.name, kind: "typeparam", imports: p.inst.imports, lit: p.inst.lit, isParam: true, jsonSafe: p.inst.jsonSafe}
 	case "ptr":
-		e := composite(t, depth-1, jsonOnly, params)
+		e := compositeX(t, depth-1, jsonOnly, withAny, params)
 		return ty{expr: "*" + e.expr, kind: "pointer", imports: e.imports, jsonSafe: e.jsonSafe, lit: func(t *rapid.T) string {
 			if rapid.Bool().Draw(t, "nilptr") {
 				return "nil"
@@ -189,7 +206,7 @@ func composite(t *rapid.T, depth int, jsonOnly bool, params []tparam) ty {
 			return "ptrOf[" + e.expr + "](" + l + ")"
 		}}
 	case "slice":
-		e := composite(t, depth-1, jsonOnly, params)
+		e := compositeX(t, depth-1, jsonOnly, withAny, params)
 		return ty{expr: "[]" + e.expr, kind: "slice", imports: e.imports, jsonSafe: e.jsonSafe, lit: func(t *rapid.T) string {
 			n := rapid.IntRange(0, 2).Draw(t, "slen")
 			if n == 0 {
@@ -202,12 +219,12 @@ func composite(t *rapid.T, depth int, jsonOnly bool, params []tparam) ty {
 			return "[]" + e.expr + "{" + strings.Join(xs, ", ") + "}"
 		}}
 	case "array":
-		e := composite(t, depth-1, jsonOnly, params)
+		e := compositeX(t, depth-1, jsonOnly, withAny, params)
 		return ty{expr: "[2]" + e.expr, kind: "array", imports: e.imports, jsonSafe: e.jsonSafe, lit: func(t *rapid.T) string {
 			return "[2]" + e.expr + "{" + e.lit(t) + ", " + e.lit(t) + "}"
 		}}
 	case "map":
-		e := composite(t, depth-1, jsonOnly, params)
+		e := compositeX(t, depth-1, jsonOnly, withAny, params)
 		return ty{expr: "map[string]" + e.expr, kind: "map", imports: e.imports, jsonSafe: e.jsonSafe, lit: func(t *rapid.T) string {
 			n := rapid.IntRange(0, 2).Draw(t, "mlen")
 			if n == 0 {
@@ -220,7 +237,7 @@ func composite(t *rapid.T, depth int, jsonOnly bool, params []tparam) ty {
 			return "map[string]" + e.expr + "{" + strings.Join(xs, ", ") + "}"
 		}}
 	case "option":
-		e := composite(t, depth-1, jsonOnly, params)
+		e := compositeX(t, depth-1, jsonOnly, withAny, params)
 		// for JSON structs Some(nil)/Some(None) encode to null: excluded by the statement
 		notNull := func(t *rapid.T) string {
 			for i := 0; i < 20; i++ {
@@ -243,7 +260,7 @@ func composite(t *rapid.T, depth int, jsonOnly bool, params []tparam) ty {
 				}
 			}
 			if l == "nil" {
-				if strings.HasPrefix(e.kind, "interface") || e.kind == "fp.Either" {
+				if strings.HasPrefix(e.kind, "interface") || e.kind == "fp.Either" || e.kind == "named-import-alias" || e.kind == "json-any" {
 					// Some(nil interface) is not recoverable by type assertion from AsMap: not demanded
 					return "option.None[" + e.expr + "]()"
 				}
@@ -252,7 +269,7 @@ func composite(t *rapid.T, depth int, jsonOnly bool, params []tparam) ty {
 			return "option.Some[" + e.expr + "](" + l + ")"
 		}}
 	case "seq":
-		e := composite(t, depth-1, jsonOnly, params)
+		e := compositeX(t, depth-1, jsonOnly, withAny, params)
 		return ty{expr: "fp.Seq[" + e.expr + "]", kind: "fp.Seq", imports: append([]string{"github.com/csgura/fp"}, e.imports...), jsonSafe: e.jsonSafe, lit: func(t *rapid.T) string {
 			if rapid.Bool().Draw(t, "nilseq") {
 				return "nil"
@@ -260,12 +277,12 @@ func composite(t *rapid.T, depth int, jsonOnly bool, params []tparam) ty {
 			return "fp.Seq[" + e.expr + "]{" + e.lit(t) + "}"
 		}}
 	case "tuple2":
-		e := composite(t, depth-1, jsonOnly, params)
+		e := compositeX(t, depth-1, jsonOnly, withAny, params)
 		return ty{expr: "fp.Tuple2[int, " + e.expr + "]", kind: "fp.Tuple2", imports: append([]string{"github.com/csgura/fp"}, e.imports...), jsonSafe: e.jsonSafe, lit: func(t *rapid.T) string {
 			return "fp.Tuple2[int, " + e.expr + "]{I1: " + intLit(t) + ", I2: " + e.lit(t) + "}"
 		}}
 	case "try":
-		e := composite(t, depth-1, true, params)
+		e := compositeX(t, depth-1, true, false, params)
 		return ty{expr: "fp.Try[" + e.expr + "]", kind: "fp.Try", imports: append([]string{"github.com/csgura/fp", "errors"}, e.imports...), lit: func(t *rapid.T) string {
 			if rapid.Bool().Draw(t, "fail") {
 				return "fp.Failure[" + e.expr + "](errSentinel)"
@@ -294,15 +311,29 @@ type tparam struct {
 }
 
 type field struct {
-	name     string
-	t        ty
-	tag      string
-	embedded bool
+	name       string
+	t          ty
+	tag        string
+	embedded   bool
+	strExclude bool // the tag carries fp:"...String.Exclude...": left out of the generated String()
 }
 
 func (f field) private() bool {
 	c := f.name[0]
 	return c >= 'a' && c <= 'z'
+}
+
+// plainPublic: an ordinary exported field (what @fp.GetterPubField / @fp.WithPubField are documented for).
+// Underscore fields and embedded structs also count as "public" inside gombok; nothing is demanded for them.
+func (f field) plainPublic() bool {
+	return !f.private() && !f.embedded && !strings.HasPrefix(f.name, "_")
+}
+
+// required mirrors "required" of @fp.RequiredArgsConstructor (example RequiredArgs{hello string; world *int;
+// etc fp.Option[string]} -> NewRequiredArgs(hello string)): an applied field that is neither a pointer nor an
+// fp.Option.
+func (f field) required() bool {
+	return f.applied() && f.t.kind != "pointer" && !f.t.isOption
 }
 
 func (f field) applied() bool {
@@ -316,29 +347,37 @@ func (f field) applied() bool {
 }
 
 type structSpec struct {
-	name      string
-	params    []tparam
-	fields    []field
-	value     bool // @fp.Value
-	json      bool
-	jsonTag   bool
-	labelled  bool
-	getter    bool
-	with      bool
-	builder   bool
-	str       bool
-	allArgs   bool
-	docOnSpec bool // comment on the TypeSpec inside a type ( ... ) group
-	multiName bool // `a, b T` declarations where neighbours share a type
-	handGet   string
-	handWith  string
-	handBuild string
-	values    [][]string // literal per field, per value
-	decode    []string
+	name        string
+	params      []tparam
+	fields      []field
+	value       bool // @fp.Value
+	json        bool
+	jsonTag     bool
+	labelled    bool
+	getter      bool
+	with        bool
+	builder     bool
+	str         bool
+	allArgs     bool
+	reqArgs     bool   // @fp.RequiredArgsConstructor (never together with @fp.AllArgsConstructor)
+	getterPub   bool   // @fp.GetterPubField
+	withPub     bool   // @fp.WithPubField
+	pubParam    bool   // write the two as `(override=true)`: only meaningful together with @fp.Deref, must be harmless here
+	useShow     string // @fp.String(useShow=true): "var" / "func" = hand-written Show instance of that form, "none" = no instance
+	docOnSpec   bool   // comment on the TypeSpec inside a type ( ... ) group
+	multiName   bool   // `a, b T` declarations where neighbours share a type
+	handGet     string
+	handWith    string
+	handBuild   string
+	handGetPub  string     // hand-written GetF of a public field
+	handWithPub string     // hand-written WithF of a public field
+	values      [][]string // literal per field, per value
+	decode      []string
 }
 
 type pkgSpec struct {
 	structs []structSpec
+	derefs  []derefSpec
 }
 
 var safeNames = []string{"name", "count", "data", "flag", "item", "left", "right", "size", "key", "val", "first", "second", "x1", "y2", "payload", "opt", "ptr", "list", "when", "total", "kind", "zed"}
@@ -393,6 +432,24 @@ func drawStruct(t *rapid.T, idx int, exclFragile map[string]bool, forceJson bool
 			s.getter = true
 		}
 	}
+	if !forceJson {
+		if !s.allArgs && rapid.IntRange(0, 4).Draw(t, "@RequiredArgs") == 0 {
+			s.reqArgs = true
+		}
+		s.getterPub = rapid.IntRange(0, 3).Draw(t, "@GetterPubField") == 0
+		s.withPub = rapid.IntRange(0, 3).Draw(t, "@WithPubField") == 0
+		if s.getterPub || s.withPub {
+			s.pubParam = rapid.IntRange(0, 3).Draw(t, "pubOverrideParam") == 0
+		}
+		if s.str && rapid.Bool().Draw(t, "useShow") || s.value && !s.str && rapid.IntRange(0, 7).Draw(t, "value+useShow") == 0 {
+			s.str = true
+			s.useShow = rapid.SampledFrom([]string{"var", "var", "func", "func", "none"}).Draw(t, "showInstance")
+			if len(s.params) > 0 {
+				// instance resolution for generic types is C08's business
+				s.useShow = "none"
+			}
+		}
+	}
 	s.docOnSpec = rapid.IntRange(0, 3).Draw(t, "docOnSpec") == 0
 	nf := rapid.SampledFrom([]int{1, 2, 3, 3, 4, 5, 6, 8, 12, 21, 22, 25}).Draw(t, "nfields")
 	if s.json && nf > 8 {
@@ -413,7 +470,11 @@ func drawStruct(t *rapid.T, idx int, exclFragile map[string]bool, forceJson bool
 	}
 	for i := 0; i < nf; i++ {
 		var f field
-		cls := rapid.SampledFrom([]string{"safe", "safe", "safe", "safe", "fragile", "public", "underscore", "embedded", "numeric", "numeric"}).Draw(t, "namecls")
+		clsPool := []string{"safe", "safe", "safe", "safe", "fragile", "public", "underscore", "embedded", "numeric", "numeric"}
+		if s.getterPub || s.withPub {
+			clsPool = append(clsPool, "public", "public", "public")
+		}
+		cls := rapid.SampledFrom(clsPool).Draw(t, "namecls")
 		if s.json && (cls == "embedded" || cls == "underscore") {
 			cls = "safe"
 		}
@@ -456,6 +517,19 @@ func drawStruct(t *rapid.T, idx int, exclFragile map[string]bool, forceJson bool
 			case 2:
 				f.tag = fmt.Sprintf(`yaml:"y%d"`, i)
 			}
+			if !forceJson && rapid.IntRange(0, 6).Draw(t, "fptag") == 0 {
+				// the fp:"..." tag: a list of options separated by , or ; - bare words or key=value.
+				// The one option gombok knows is the bare word String.Exclude.
+				form := rapid.SampledFrom([]string{`fp:"String.Exclude"`, `fp:"String.Exclude"`, `fp:"String.Exclude"`, `fp:"Other.Flag,String.Exclude"`, `fp:"name=x;String.Exclude"`, `fp:"String.Exclude;Other.Flag"`, `fp:"Other.Flag"`, `fp:"name=x"`}).Draw(t, "fpform")
+				f.strExclude = strings.Contains(form, "String.Exclude")
+				if f.tag == "" {
+					f.tag = form
+				} else if rapid.Bool().Draw(t, "fpfirst") {
+					f.tag = form + " " + f.tag
+				} else {
+					f.tag = f.tag + " " + form
+				}
+			}
 		}
 		s.fields = append(s.fields, f)
 	}
@@ -477,6 +551,22 @@ func drawStruct(t *rapid.T, idx int, exclFragile map[string]bool, forceJson bool
 			s.handBuild = f.name
 		}
 	}
+	if len(s.params) == 0 && (s.getterPub || s.withPub) {
+		var pubs []field
+		for _, f := range s.fields {
+			if f.plainPublic() {
+				pubs = append(pubs, f)
+			}
+		}
+		if len(pubs) > 0 && rapid.IntRange(0, 2).Draw(t, "handPub") == 0 {
+			f := rapid.SampledFrom(pubs).Draw(t, "handPubField")
+			if s.getterPub && (!s.withPub || rapid.Bool().Draw(t, "handPubGet")) {
+				s.handGetPub = f.name
+			} else {
+				s.handWithPub = f.name
+			}
+		}
+	}
 	s.multiName = rapid.IntRange(0, 2).Draw(t, "multiName") == 0
 	if s.multiName {
 		// make some neighbours share their type (and drop their tags) so that `a, b T` declarations appear
@@ -484,6 +574,21 @@ func drawStruct(t *rapid.T, idx int, exclFragile map[string]bool, forceJson bool
 			if !s.fields[i].embedded && !s.fields[i-1].embedded && rapid.Bool().Draw(t, "shareType") {
 				s.fields[i].t = s.fields[i-1].t
 				s.fields[i].tag, s.fields[i-1].tag = "", ""
+				s.fields[i].strExclude, s.fields[i-1].strExclude = false, false
+			}
+		}
+	}
+	if !IncludeShapes["json-any-untagged"] {
+		// Whether an untagged field of type `any` is "nilable" (gets `json:"name,omitempty"` in the Mutable
+		// type) is not documented and currently depends on how go/types represents the alias `any`; the
+		// grammar stays neutral: such a field always carries its own json tag, which is copied as it is.
+		for i, f := range s.fields {
+			if f.t.kind == "json-any" && !strings.Contains(f.tag, "json") {
+				tag := fmt.Sprintf(`json:"jany%d"`, i)
+				if f.tag != "" {
+					tag = f.tag + " " + tag
+				}
+				s.fields[i].tag = tag
 			}
 		}
 	}
@@ -561,10 +666,27 @@ func (s structSpec) annotations() []string {
 		a = append(a, "@fp.Builder")
 	}
 	if s.str {
-		a = append(a, "@fp.String")
+		if s.useShow != "" {
+			a = append(a, "@fp.String(useShow=true)")
+		} else {
+			a = append(a, "@fp.String")
+		}
 	}
 	if s.allArgs {
 		a = append(a, "@fp.AllArgsConstructor")
+	}
+	if s.reqArgs {
+		a = append(a, "@fp.RequiredArgsConstructor")
+	}
+	par := ""
+	if s.pubParam {
+		par = "(override=true)"
+	}
+	if s.getterPub {
+		a = append(a, "@fp.GetterPubField"+par)
+	}
+	if s.withPub {
+		a = append(a, "@fp.WithPubField"+par)
 	}
 	return a
 }
@@ -583,6 +705,14 @@ func (p pkgSpec) source() string {
 				imports[i] = true
 			}
 		}
+		if s.useShow == "var" || s.useShow == "func" {
+			imports["github.com/csgura/fp/show"] = true
+		}
+	}
+	for _, d := range p.derefs {
+		if d.pb {
+			imports["scratch/pb"] = true
+		}
 	}
 	var sb strings.Builder
 	sb.WriteString("package pa\n\nimport (\n")
@@ -592,6 +722,11 @@ func (p pkgSpec) source() string {
 	}
 	sort.Strings(il)
 	for _, i := range il {
+		if i == "github.com/csgura/fp/show" {
+			// the law library declares a function named show
+			fmt.Fprintf(&sb, "\tfpshow %q\n", i)
+			continue
+		}
 		fmt.Fprintf(&sb, "\t%q\n", i)
 	}
 	sb.WriteString("\trf \"reflect\"\n)\n\nvar errSentinel = errors.New(\"sentinel\")\nvar _ = fmt.Sprint\nvar _ = time.Second\nvar _ fp.Unit\nvar _ = option.None[int]\nvar _ = rf.TypeOf\n")
@@ -666,13 +801,56 @@ func (p pkgSpec) source() string {
 			f := fidx(s.handBuild)
 			fmt.Fprintf(&sb, "\n// hand-written builder type and setter\ntype %sBuilder %s\n\nfunc (x %sBuilder) %s(nv %s) %sBuilder { return x }\n", s.name, s.name, s.name, up(f.name), f.t.expr, s.name)
 		}
+		if s.handGetPub != "" {
+			f := fidx(s.handGetPub)
+			fmt.Fprintf(&sb, "\n// hand-written getter of a public field: the generator must not emit a second one\nfunc (x %s) Get%s() %s { return x.%s }\n", s.name, f.name, f.t.expr, f.name)
+		}
+		if s.handWithPub != "" {
+			f := fidx(s.handWithPub)
+			fmt.Fprintf(&sb, "\n// hand-written With of a public field: the generator must not emit a second one\nfunc (x %s) With%s(nv %s) %s { return x }\n", s.name, f.name, f.t.expr, s.name)
+		}
+		if s.useShow == "var" || s.useShow == "func" {
+			body := fmt.Sprintf("fpshow.New(func(v %s) string { return %s })", s.name, s.showBody())
+			if s.useShow == "var" {
+				fmt.Fprintf(&sb, "\n// hand-written Show instance: @fp.String(useShow=true) makes String() use it\nvar Show%s = %s\n", s.name, body)
+			} else {
+				fmt.Fprintf(&sb, "\n// hand-written Show instance: @fp.String(useShow=true) makes String() use it\nfunc Show%s() fp.Show[%s] { return %s }\n", s.name, s.name, body)
+			}
+		}
+	}
+	for _, d := range p.derefs {
+		if !d.pb {
+			sb.WriteString(d.baseSource())
+		}
+		sb.WriteString(d.source())
 	}
 	return sb.String()
 }
 
+// showBody is the text the hand-written Show instance prints: the struct name and its first applied field
+// (it must not print v itself: v.String() is the method under test and calls this instance).
+func (s structSpec) showBody() string {
+	for _, f := range s.fields {
+		if f.applied() {
+			return fmt.Sprintf(`fmt.Sprintf("%s<%%v>", v.%s)`, s.name, f.name)
+		}
+	}
+	return strconv.Quote(s.name + "<>")
+}
+
+// hideErrVar: with shape useshow-error-typed-var excluded (a package-level variable of type error next to
+// @fp.String(useShow=true) is a recorded finding) the sentinel error lives in a slice instead.
+func hideErrVar(src string) string {
+	if !ExcludeShapes["useshow-error-typed-var"] {
+		return src
+	}
+	src = strings.ReplaceAll(src, "errSentinel", "errSentinels[0]")
+	return strings.Replace(src, `var errSentinels[0] = errors.New("sentinel")`, `var errSentinels = []error{errors.New("sentinel")}`, 1)
+}
+
 // header imports must always contain fmt, time, fp, option because of the blank uses
 func (p pkgSpec) sourceFixed() string {
-	src := p.source()
+	src := hideErrVar(p.source())
 	for _, need := range []string{"fmt", "time", "github.com/csgura/fp", "github.com/csgura/fp/option"} {
 		q := "\t" + strconv.Quote(need) + "\n"
 		if !strings.Contains(src, q) {
@@ -706,16 +884,29 @@ func jsonTwinTag(s structSpec, f field) string {
 // (fp.Seq, MyStr, fp.Either) are not.
 func nilable(t ty) bool {
 	switch t.kind {
-	case "pointer", "slice", "map", "interface", "interface-inline", "func", "chan":
+	case "pointer", "slice", "map", "interface", "interface-inline", "json-any", "func", "chan":
 		return true
 	}
 	return t.expr == "string"
 }
 
-// cases renders zz_cases_test.go
-func (p pkgSpec) cases(maxProduct int) string {
+// hasFunc: does the generated file declare the package-level function name (plain or generic)?
+func hasFunc(gen, name string) bool {
+	return strings.Contains(gen, "func "+name+"(") || strings.Contains(gen, "func "+name+"[")
+}
+
+// cases renders zz_cases_test.go. gen is the text of the generated file: package-level functions
+// (constructors, IntoX) cannot be looked up by reflection, so a case only refers to those gombok declared and
+// says which ones are missing.
+func (p pkgSpec) cases(maxProduct int, gen string) string {
 	var sb strings.Builder
-	sb.WriteString("package pa\n\nimport (\n\t\"fmt\"\n\trf \"reflect\"\n\t\"time\"\n\t\"github.com/csgura/fp\"\n\t\"github.com/csgura/fp/option\"\n)\n\nvar _ = fmt.Sprint\nvar _ = time.Second\nvar _ fp.Unit\nvar _ = option.None[int]\nvar _ = rf.TypeOf\n\n")
+	pbImport := ""
+	for _, d := range p.derefs {
+		if d.pb {
+			pbImport = "\t\"scratch/pb\"\n"
+		}
+	}
+	sb.WriteString("package pa\n\nimport (\n\t\"fmt\"\n\trf \"reflect\"\n\t\"time\"\n\t\"github.com/csgura/fp\"\n\t\"github.com/csgura/fp/option\"\n" + pbImport + ")\n\nvar _ = fmt.Sprint\nvar _ = time.Second\nvar _ fp.Unit\nvar _ = option.None[int]\nvar _ = rf.TypeOf\n\n")
 	up := func(n string) string { return strings.ToUpper(n[:1]) + n[1:] }
 	for _, s := range p.structs {
 		if s.json {
@@ -748,9 +939,15 @@ func (p pkgSpec) cases(maxProduct int) string {
 		fmt.Fprintf(&sb, "\t{\n\t\tName: %q, HasValue: %v, Labelled: %v, Json: %v, Getter: %v, With: %v, Builder: %v, MaxProduct: %d,\n", s.name, s.value, s.labelled, s.json, s.getter, s.with, s.builder, maxProduct)
 		sb.WriteString("\t\tFields: []lawField{\n")
 		for _, f := range s.fields {
-			fmt.Fprintf(&sb, "\t\t\t{Name: %q, Applied: %v, Private: %v, IsOption: %v, Tag: %q, Embedded: %v},\n", f.name, f.applied(), f.private(), f.t.isOption, f.tag, f.embedded)
+			fmt.Fprintf(&sb, "\t\t\t{Name: %q, Applied: %v, Private: %v, IsOption: %v, Tag: %q, Embedded: %v, PlainPublic: %v, Required: %v, StrExclude: %v},\n", f.name, f.applied(), f.private(), f.t.isOption, f.tag, f.embedded, f.plainPublic(), f.required(), f.strExclude && f.applied())
 		}
 		sb.WriteString("\t\t},\n\t\tSkip: map[string]bool{")
+		if s.handGetPub != "" {
+			fmt.Fprintf(&sb, "%q: true, ", "Get"+s.handGetPub)
+		}
+		if s.handWithPub != "" {
+			fmt.Fprintf(&sb, "%q: true, ", "With"+s.handWithPub)
+		}
 		if s.handGet != "" {
 			fmt.Fprintf(&sb, "%q: true, ", up(s.handGet))
 		}
@@ -784,6 +981,32 @@ func (p pkgSpec) cases(maxProduct int) string {
 		if s.str {
 			sb.WriteString("\t\tStr: true,\n")
 		}
+		tpInst := ""
+		if len(s.params) > 0 {
+			var ps []string
+			for _, tp := range s.params {
+				ps = append(ps, tp.inst.expr)
+			}
+			tpInst = "[" + strings.Join(ps, ", ") + "]"
+		}
+		if s.reqArgs {
+			if hasFunc(gen, "New"+s.name) {
+				fmt.Fprintf(&sb, "\t\tReqArgs: true, ReqCtor: New%s%s,\n", s.name, tpInst)
+			} else {
+				sb.WriteString("\t\tReqArgs: true,\n")
+			}
+		}
+		fmt.Fprintf(&sb, "\t\tGetterPub: %v, WithPub: %v,\n", s.getterPub, s.withPub)
+		if (s.value || s.str) && s.useShow == "" {
+			// the String() method is gombok's own field listing: the fp:"String.Exclude" tag applies to it
+			sb.WriteString("\t\tDefaultString: true,\n")
+		}
+		switch s.useShow {
+		case "var":
+			fmt.Fprintf(&sb, "\t\tShowFn: func(a any) string { return Show%s.Show(a.(%s)) },\n", s.name, s.name)
+		case "func":
+			fmt.Fprintf(&sb, "\t\tShowFn: func(a any) string { return Show%s().Show(a.(%s)) },\n", s.name, s.name)
+		}
 		if s.json {
 			fmt.Fprintf(&sb, "\t\tTwin: twinOf%s,\n\t\tDecode: []string{", s.name)
 			for _, d := range s.decode {
@@ -793,8 +1016,12 @@ func (p pkgSpec) cases(maxProduct int) string {
 		}
 		sb.WriteString("\t},\n")
 	}
+	sb.WriteString("}\n\nvar derefCases = []derefCase{\n")
+	for _, d := range p.derefs {
+		sb.WriteString(d.lawCase(gen))
+	}
 	sb.WriteString("}\n")
-	return sb.String()
+	return hideErrVar(sb.String())
 }
 
 // substParams replaces type parameter names (TA, TB, TC) inside an expression by the instantiation.
@@ -816,7 +1043,17 @@ func (p pkgSpec) describe() string {
 			}
 			sb.WriteString("; ")
 		}
-		fmt.Fprintf(&sb, "} hand(get=%s,with=%s,build=%s) values=%v decode=%q\n", s.handGet, s.handWith, s.handBuild, s.values, s.decode)
+		fmt.Fprintf(&sb, "} hand(get=%s,with=%s,build=%s", s.handGet, s.handWith, s.handBuild)
+		if s.handGetPub != "" || s.handWithPub != "" {
+			fmt.Fprintf(&sb, ",getpub=%s,withpub=%s", s.handGetPub, s.handWithPub)
+		}
+		if s.useShow != "" {
+			fmt.Fprintf(&sb, ",show-instance=%s", s.useShow)
+		}
+		fmt.Fprintf(&sb, ") values=%v decode=%q\n", s.values, s.decode)
+	}
+	for _, d := range p.derefs {
+		sb.WriteString(d.describe())
 	}
 	return sb.String()
 }
